@@ -169,7 +169,7 @@ func (g *goGen) block(d, depth, n int) {
 }
 
 func (g *goGen) stmt(d, depth int) {
-	k := g.r.Intn(22)
+	k := g.r.Intn(26)
 	if depth <= 0 && k >= 8 && k <= 17 {
 		k = g.r.Intn(8)
 	}
@@ -415,8 +415,36 @@ func (g *goGen) stmt(d, depth int) {
 		g.line(d, "var %s I0 = &T0{}", n)
 		g.declare(n, tFn+3)
 		g.line(d, "_ = %s.M0(%s)", n, g.intExpr(1))
-	default:
+	case 21:
 		g.line(d, "G1 = %s", g.strExpr(2))
+	case 22: // embedded fields: literal keys, promoted fields and methods
+		n := g.freshInScope()
+		g.line(d, "%s := &T1{E0: E0{ea: %s}, T0: &T0{fa: 2}, Tagged: %s}", n, g.intExpr(1), g.intExpr(1))
+		g.declare(n, tFn+4)
+		g.line(d, "_ = %s.ea + %s.EM() + %s.fa + %s.M0(1) + %s.Builder.Len() + %s.anon.p + %s.E0.ea", n, n, n, n, n, n, n)
+		g.line(d, "%s.Reader = strings.NewReader(%s)", n, g.strExpr(1))
+	case 23: // promotion through two levels, embedded interface
+		n := g.freshInScope()
+		g.line(d, "var %s T2", n)
+		g.declare(n, tFn+5)
+		g.line(d, "%s.I0 = &T0{}", n)
+		g.line(d, "_ = %s.EM() + %s.T1.E0.ea + %s.I0.M0(%s) + %s.Tagged", n, n, n, g.intExpr(1), n)
+	case 24: // anonymous struct types
+		n := g.freshInScope()
+		g.line(d, "%s := struct {", n)
+		g.line(d+1, "a, b int")
+		g.line(d+1, "s    string `k:\"v\"`")
+		g.line(d+1, "E0")
+		g.line(d, "}{a: %s, s: %s}", g.intExpr(1), g.strExpr(1))
+		g.declare(n, tFn+6)
+		g.line(d, "_ = %s.a + %s.b + len(%s.s) + %s.ea + %s.EM()", n, n, n, n, n)
+	default: // interface embedding another interface and a package-qualified one
+		n := g.freshInScope()
+		g.line(d, "var %s I1", n)
+		g.declare(n, tFn+7)
+		g.line(d, "if %s != nil {", n)
+		g.line(d+1, "_ = %s.M0(1) + len(%s.String())", n, n)
+		g.line(d, "}")
 	}
 }
 
@@ -426,7 +454,12 @@ func genGoProgram(r *vh.Rand) (string, map[string]int) {
 	// some package-level declarations are placed AFTER their uses
 	late := r.Bool()
 	decls := "var _, _ = fmt.Sprint, strings.Count\n\nconst C0 = 10\n\nconst C1 int = 3\n\nvar G0, G1 = 1, \"s\"\n\nvar Ch = make(chan int, 100)\n\n" +
-		"type T0 struct {\n\tfa   int\n\tfb   string\n\tnext *T0\n}\n\ntype I0 interface {\n\tM0(x int) int\n}\n\n"
+		"type T0 struct {\n\tfa   int\n\tfb   string\n\tnext *T0\n}\n\ntype I0 interface {\n\tM0(x int) int\n}\n\n" +
+		// embedded fields of every form (T, *T, pkg.T, *pkg.T), embedded interfaces, promotion through two
+		// levels, struct tags, an anonymous struct type
+		"type E0 struct {\n\tea int\n}\n\nfunc (e *E0) EM() int {\n\treturn e.ea\n}\n\n" +
+		"type T1 struct {\n\tE0\n\t*T0\n\tstrings.Builder\n\t*strings.Reader\n\tTagged int `json:\"tagged,omitempty\"`\n\tanon   struct {\n\t\tp, q int\n\t}\n}\n\n" +
+		"type T2 struct {\n\tT1\n\tI0\n}\n\ntype I1 interface {\n\tI0\n\tfmt.Stringer\n\tM1(a, b int) (int, error)\n}\n\n"
 	if !late {
 		g.b.WriteString(decls)
 	}
